@@ -271,7 +271,8 @@ def must_pass_through(cfg, start, is_target, is_marker, start_after=True, track=
                 l = strip(n['ch'][0])
                 if l is not None and l['k'] == 'DeclRefExpr' and l.get('d') == track:
                     r = strip(n['ch'][1])
-                    val = r.get('v') if (n['op'] == '=' and r is not None and r['k'] == 'IntegerLiteral') else None
+                    # an integer literal or an enumerator / constant whose value the exporter evaluated (`retAddr = RET_STD;`)
+                    val = r.get('v') if (n['op'] == '=' and r is not None and (r['k'] == 'IntegerLiteral' or (r['k'] == 'DeclRefExpr' and 'v' in r))) else None
             if track is not None and n['k'] == 'UnaryOperator' and n.get('op') in ('++', '--'):
                 l = strip(n['ch'][0])
                 if l is not None and l.get('d') == track:
